@@ -178,7 +178,202 @@ def check_read_map(rep, prop='C14'):
 
     eng = MapEngine(inline_ok=lambda f: False, unknown_ok=True)
     FuncVC(rep, prop, fn, name, eng).run(start, post, replay_read_map)
-    rep.assume('read_map: the per-format readers hand the block-building loop a strictly increasing list of addresses inside [start, end) (sorted(set) and the start <= address < end filter in each reader: by inspection, observed in the bounded runs)')
+    check_map_readers(rep, prop)
+
+
+# ---------------------------------------------------------------------------------------------------------------------
+# The producers of `addresses` (the three file-format readers): the contract the block-building loop above relies on.
+# Site obligations over the readers' own ASTs, re-read on every run:
+#   in_range   every addresses.append(X) / addresses.add(X) is dominated by conditions that imply start <= X < end
+#              (enclosing `if` tests and `for X in range(a, b)` headers, with no store to the names involved between
+#              the condition and the call); discharged by z3 over mathematical integers, start/end/X unconstrained;
+#   increasing the list handed over is strictly increasing: sorted(<set>) for _get_addresses; the range() loop target
+#              for the SpecEmu reader; a variable stepped by a positive constant once per iteration for the Z80 reader;
+#   no_other   `addresses` has no other writer (any other method call or store is refused).
+def _z3_of(e, env, opaque):
+    if isinstance(e, ast.Name):
+        return env.setdefault(e.id, z3.Int(e.id))
+    if isinstance(e, ast.Constant) and isinstance(e.value, int) and not isinstance(e.value, bool):
+        return z3.IntVal(e.value)
+    if isinstance(e, ast.Compare):
+        ops = {ast.Lt: lambda a, b: a < b, ast.LtE: lambda a, b: a <= b, ast.Gt: lambda a, b: a > b, ast.GtE: lambda a, b: a >= b,
+               ast.Eq: lambda a, b: a == b, ast.NotEq: lambda a, b: a != b}
+        terms = [e.left] + list(e.comparators)
+        if all(type(o) in ops for o in e.ops) and all(isinstance(t, (ast.Name, ast.Constant)) and (isinstance(t, ast.Name) or (isinstance(t.value, int) and not isinstance(t.value, bool))) for t in terms):
+            zs = [_z3_of(t, env, opaque) for t in terms]
+            return z3.And([ops[type(o)](a, b) for o, a, b in zip(e.ops, zs, zs[1:])])
+    if isinstance(e, ast.BoolOp):
+        parts = [_z3_of(v, env, opaque) for v in e.values]
+        if all(z3.is_bool(x) for x in parts):
+            return z3.And(parts) if isinstance(e.op, ast.And) else z3.Or(parts)
+    if isinstance(e, ast.UnaryOp) and isinstance(e.op, ast.Not):
+        x = _z3_of(e.operand, env, opaque)
+        if z3.is_bool(x):
+            return z3.Not(x)
+    # anything else: an uninterpreted truth value, identified by its text
+    return opaque.setdefault(ast.unparse(e), z3.Bool('opaque!%d' % len(opaque)))
+
+
+def _stores(node):
+    out = set()
+    for n in ast.walk(node):
+        if isinstance(n, ast.Name) and isinstance(n.ctx, (ast.Store, ast.Del)):
+            out.add(n.id)
+    return out
+
+
+def _names(node):
+    return {n.id for n in ast.walk(node) if isinstance(n, ast.Name)}
+
+
+def _site_guards(fnode, call):
+    """Conditions that hold at `call`: walk from the function body down to the call, collecting `if` tests (negated on
+    the else side), `for X in range(a, b)` facts, and the negation of the tests of earlier `if ...: raise/return/continue/break`
+    statements in the same block; a condition is dropped when a name it mentions is stored between it and the call."""
+    guards = []      # (z3-able ast or ('range', target, a, b) or ('not', ast))
+
+    def kill(stored):
+        guards[:] = [g for g in guards if not (g[1] & stored)]
+
+    def descend(stmts):
+        for s in stmts:
+            inside = any(n is call for n in ast.walk(s))
+            if not inside:
+                # a statement that is passed on the way: it may leave early (then its test is false afterwards) and may store names
+                stored = _stores(s)
+                kill(stored)
+                if isinstance(s, ast.If) and not s.orelse and s.body and isinstance(s.body[-1], (ast.Raise, ast.Return, ast.Continue, ast.Break)) and not (_names(s.test) & stored):
+                    guards.append((('not', s.test), _names(s.test)))
+                continue
+            if isinstance(s, ast.If):
+                in_body = any(n is call for b in s.body for n in ast.walk(b))
+                guards.append(((('pos', s.test) if in_body else ('not', s.test)), _names(s.test)))
+                return descend(s.body if in_body else s.orelse)
+            if isinstance(s, ast.For):
+                if any(n is call for b in s.orelse for n in ast.walk(b)):
+                    return descend(s.orelse)
+                body_stores = set().union(*[_stores(b) for b in s.body]) if s.body else set()
+                kill(body_stores | _stores(s.target))      # loop-carried stores invalidate outer conditions
+                it = s.iter
+                if (isinstance(s.target, ast.Name) and isinstance(it, ast.Call) and isinstance(it.func, ast.Name) and it.func.id == 'range'
+                        and len(it.args) == 2 and not it.keywords and s.target.id not in body_stores
+                        and not (_names(it) & (body_stores | {s.target.id}))):
+                    guards.append((('range', s.target, it.args[0], it.args[1]), _names(it) | {s.target.id}))
+                return descend(s.body)
+            if isinstance(s, ast.While):
+                body_stores = set().union(*[_stores(b) for b in s.body]) if s.body else set()
+                kill(body_stores)
+                return descend(s.body)
+            if isinstance(s, (ast.With, ast.Try)):
+                kill(_stores(s) - set().union(*[_stores(b) for b in s.body]))
+                if isinstance(s, ast.With):
+                    for it in s.items:
+                        if it.optional_vars is not None:
+                            kill(_stores(it.optional_vars))
+                return descend(s.body)
+            if isinstance(s, ast.Expr) and any(n is call for n in ast.walk(s)):
+                return True
+            raise LookupError('call inside an unsupported statement: %s' % type(s).__name__)
+        return False
+    if not descend(fnode.body):
+        raise LookupError('call site not reached')
+    return [g[0] for g in guards]
+
+
+def check_map_readers(rep, prop='C14'):
+    import time
+    import skoolkit.snactl as S
+    t0 = time.time()
+    results = []    # (oid, ok, detail)
+    for fn in (S.read_map, S._get_addresses):
+        fnode, _ = func_ast(fn)
+        q = fn.__qualname__
+        # every use of `addresses`
+        for n in ast.walk(fnode):
+            if isinstance(n, ast.Call) and isinstance(n.func, ast.Attribute) and isinstance(n.func.value, ast.Name) and n.func.value.id == 'addresses':
+                oid = '%s/L%d.%s' % (q, n.lineno - fnode.lineno, n.func.attr)
+                if n.func.attr not in ('append', 'add') or len(n.args) != 1 or n.keywords:
+                    results.append((oid + '/no_other_writer', False, ast.unparse(n)))
+                    continue
+                env, opaque = {}, {}
+                facts = []
+                try:
+                    for g in _site_guards(fnode, n):
+                        if g[0] == 'range':
+                            t, a, b = (_z3_of(x, env, opaque) for x in g[1:])
+                            facts.append(z3.And(a <= t, t < b))
+                        else:
+                            z = _z3_of(g[1], env, opaque)
+                            if not z3.is_bool(z):      # truthiness of a non-comparison: uninterpreted
+                                z = opaque.setdefault('bool(%s)' % ast.unparse(g[1]), z3.Bool('opaque!%d' % len(opaque)))
+                            facts.append(z if g[0] == 'pos' else z3.Not(z))
+                    x = _z3_of(n.args[0], env, opaque)
+                    ok = z3.is_int(x)
+                    if ok:
+                        sol = z3.Solver()
+                        sol.set('timeout', 10000)
+                        sol.add(*facts)
+                        st, en = env.setdefault('start', z3.Int('start')), env.setdefault('end', z3.Int('end'))
+                        sol.add(z3.Not(z3.And(st <= x, x < en)))
+                        r = sol.check()
+                        ok = r == z3.unsat
+                        detail = '' if ok else ('start <= %s < end does not follow from the conditions on the path to line %d; %s' % (ast.unparse(n.args[0]), n.lineno, sol.model() if r == z3.sat else r))
+                    else:
+                        detail = 'argument is not an integer expression the site VC understands: ' + ast.unparse(n.args[0])
+                except LookupError as ex:
+                    ok, detail = False, str(ex)
+                results.append((oid + '/in_range', ok, detail))
+        # stores to `addresses`
+        for n in ast.walk(fnode):
+            if isinstance(n, (ast.Assign, ast.AugAssign, ast.AnnAssign)) and 'addresses' in _stores(n):
+                txt = ast.unparse(n).replace(' ', '')
+                ok = txt in ('addresses=[]', 'addresses=set()', 'addresses=_get_addresses(f,fname,size,start,end)')
+                results.append(('%s/L%d/store_is_empty_or_reader_call' % (q, n.lineno - fnode.lineno), ok, ast.unparse(n)))
+    # _get_addresses: parameters in the order the call above passes them; returns sorted(<set>)
+    gnode, _ = func_ast(S._get_addresses)
+    results.append(('_get_addresses/signature', [a.arg for a in gnode.args.args] == ['f', 'fname', 'size', 'start', 'end'], ast.unparse(gnode.args)))
+    rets = [n for n in ast.walk(gnode) if isinstance(n, ast.Return)]
+    inits = [ast.unparse(n.value) for n in ast.walk(gnode) if isinstance(n, ast.Assign) and 'addresses' in _stores(n)]
+    results.append(('_get_addresses/increasing.returns_sorted_set', bool(rets) and all(r.value is not None and ast.unparse(r.value) == 'sorted(addresses)' for r in rets) and inits == ['set()'],
+                    'returns %s; addresses initialised as %s' % ([ast.unparse(r.value) if r.value else None for r in rets], inits)))
+    # read_map's own readers: order of the appended values
+    rnode, _ = func_ast(S.read_map)
+    for loop in [n for n in ast.walk(rnode) if isinstance(n, ast.For)]:
+        calls = [n for n in ast.walk(loop) if isinstance(n, ast.Call) and isinstance(n.func, ast.Attribute) and isinstance(n.func.value, ast.Name) and n.func.value.id == 'addresses']
+        inner = [n for b in loop.body for n in ast.walk(b) if isinstance(n, (ast.For, ast.While))]
+        if not calls or any(c in list(ast.walk(i)) for i in inner for c in calls):
+            continue    # judged at the innermost loop that holds the call
+        for c in calls:
+            arg = c.args[0] if c.args else None
+            oid = 'read_map/L%d/increasing' % (c.lineno - rnode.lineno)
+            ok = False
+            if isinstance(arg, ast.Name):
+                x = arg.id
+                it = loop.iter
+                if isinstance(loop.target, ast.Name) and loop.target.id == x:
+                    # the loop target of range(a, b) with the default step, not stored in the body
+                    ok = (isinstance(it, ast.Call) and isinstance(it.func, ast.Name) and it.func.id == 'range' and len(it.args) == 2
+                          and x not in set().union(*[_stores(b) for b in loop.body]))
+                else:
+                    # stepped by a positive constant once per iteration, after the append, unconditionally; no other store in the loop nest
+                    ix = next(i for i, b in enumerate(loop.body) if any(n is c for n in ast.walk(b)))
+                    steps = [b for b in loop.body[ix + 1:] if isinstance(b, ast.AugAssign) and isinstance(b.op, ast.Add) and isinstance(b.target, ast.Name) and b.target.id == x
+                             and isinstance(b.value, ast.Constant) and isinstance(b.value.value, int) and b.value.value > 0]
+                    outer = [n for n in ast.walk(rnode) if isinstance(n, (ast.For, ast.While)) and any(m is loop for m in ast.walk(n))]
+                    nest = min(outer, key=lambda n: n.lineno)
+                    others = [n for n in ast.walk(nest) if isinstance(n, ast.Name) and n.id == x and isinstance(n.ctx, ast.Store)]
+                    ok = len(steps) == 1 and len(others) == 1
+            results.append((oid, ok, 'appended value %s; loop `%s`' % (ast.unparse(arg) if arg is not None else None, ast.unparse(loop).split('\n')[0])))
+    dt = time.time() - t0
+    name = 'skoolkit.snactl.read_map / _get_addresses [map readers: addresses in range, increasing]'
+    if len(results) < 8:
+        rep.violation('C14/map-readers/vacuous', 'only %d site obligations generated for the map readers (expected at least 8)' % len(results), no_input=True)
+    for oid, ok, detail in results:
+        rep.add('C14/map-readers/' + oid, 'proved' if ok else 'failed', 'z3' if oid.endswith('in_range') else 'syntactic', dt / max(1, len(results)), name)
+        if not ok:
+            r = replay_read_map({}, '')
+            rep.violation('C14/map-readers/' + (oid.split('/L')[0] + '/' + oid.rsplit('/', 1)[1] if '/L' in oid else oid), '%s: %s' % (oid, detail), {'case': r.get('case', {}), 'diffs': r.get('diffs', []), 'obligation': oid, 'detail': detail},
+                          no_input=not r.get('diffs'))
 
 
 def replay_read_map(vals, kind):
@@ -194,10 +389,25 @@ def replay_read_map(vals, kind):
             start = rnd.choice((32768, rnd.randrange(0, 65000)))
             end = min(65536, start + rnd.randrange(2, 40))
             snap = [rnd.choice((0x00, 0x01, 0x3E, 0xC9, 0xC3, 0x21, 0xDD, 0xCB, 0xAF, 0x18)) for _ in range(65536)]
-            addrs = sorted(set(rnd.randrange(start, end) for _ in range(rnd.randrange(1, 12))))
+            # the map may also name addresses outside [start, end) - end itself in particular; the readers must drop them
+            listed = sorted(set([rnd.randrange(max(0, start - 3), min(65536, end + 3)) for _ in range(rnd.randrange(1, 12))] + ([end] if end < 65536 and t % 2 else [])))
+            addrs = [a for a in listed if start <= a < end]
             fn = os.path.join(tmp, 'm.txt')
-            with open(fn, 'w') as f:
-                f.write(''.join('$%04X\n' % a for a in addrs))
+            if t % 3 == 0:
+                with open(fn, 'w') as f:
+                    f.write(''.join('$%04X\n' % a for a in listed))
+            elif t % 3 == 1:
+                bits = bytearray(8192)
+                for a in listed:
+                    bits[a // 8] |= 1 << (a % 8)
+                with open(fn, 'wb') as f:
+                    f.write(bits)
+            else:
+                flags = bytearray(65536)
+                for a in listed:
+                    flags[a] = 1
+                with open(fn, 'wb') as f:
+                    f.write(flags)
             import io
             import contextlib
             with contextlib.redirect_stderr(io.StringIO()):
@@ -209,10 +419,12 @@ def replay_read_map(vals, kind):
             for a in addrs:
                 if not any(b[0] <= a < b[0] + b[1] for b in blocks):
                     diffs.append(('map address outside every block', a, blocks[:4]))
+            if any(not start <= b[0] < end for b in blocks):
+                diffs.append(('block starts outside [start, end)', [list(b) for b in blocks if not start <= b[0] < end][:3], [start, end]))
             if any(b[0] not in addrs or b[1] < 1 for b in blocks):
                 diffs.append(('block does not start at a map address', blocks[:4], addrs[:6]))
             if diffs:
-                return {'case': {'start': start, 'end': end, 'map_addresses': addrs, 'bytes': snap[start:end + 4]}, 'diffs': diffs[:3]}
+                return {'case': {'start': start, 'end': end, 'map_format': ('rzxplay', 'z80', 'specemu')[t % 3], 'map_addresses': listed, 'bytes': snap[start:end + 4]}, 'diffs': diffs[:3]}
     finally:
         import shutil
         shutil.rmtree(tmp, ignore_errors=True)
